@@ -596,6 +596,15 @@ def run_mixfit(tr, op, program):
     sal_b = None if sal is None else np.asarray(sal)
     for i, (iteration, model, aff, qf) in enumerate(reports):
         tr.count('em_steps')
+        w_now = np.asarray(models.broadcast_weight(kind, model, aff_shape)) \
+            if aff.shape == aff_shape else np.zeros(1)
+        if not (np.all(np.isfinite(aff)) and np.all(np.isfinite(w_now))
+                and (qf is None or np.all(np.isfinite(qf)))):
+            # non-finite state (e.g. every posterior of a tied group
+            # underflowed, 0/0 weights): whether that may happen is C01 / C09;
+            # the estimator formulas say nothing about it
+            tr.count('probe:non_finite_state_fit_not_judged_further')
+            break
         if aff.shape != aff_shape:
             tr.viol('R0', entry, f'affiliation shape {aff.shape} at step {i}, '
                     f'expected {aff_shape}', **fault_note)
